@@ -28,7 +28,7 @@ from .config_service import ConfigService  # noqa: F401
 LOGGING_CONF = os.getenv('DEEP_LOGGING_CONF', None)
 '''The path to the logging config file to use'''
 
-POLL_TIMER = os.getenv('DEEP_POLL_TIMER', 10)
+POLL_TIMER = int(os.getenv('DEEP_POLL_TIMER', 10))
 """The time in seconds to wait between each poll (default: 10)"""
 
 SERVICE_URL = os.getenv('DEEP_SERVICE_URL', 'deep:43315')
@@ -72,9 +72,9 @@ def IN_APP_EXCLUDE():
     user_defined = os.getenv('DEEP_IN_APP_EXCLUDE', None)
     if user_defined is None:
         user_defined = []
+    elif ',' in user_defined:
+        user_defined = user_defined.split(',')
     else:
-        if ',' in user_defined:
-            user_defined = user_defined.split(',')
         user_defined = [user_defined]
 
     prefix = sys.exec_prefix
